@@ -58,8 +58,9 @@ def build(ctx):
     if not re.search(r'enum\s+ExceptionState\s*\{\s*kUnset\s*,\s*kSetting\s*,\s*kSet\s*\}', txt):
         raise X.ExtractionError('ExceptionState enum changed')
     S = 'specs/c05_exceptions.c'
-    return [Unit('TaskSetBase::trySetCurrentException', 'cbmc', S, 'TSB_trySetCurrentException', expect=[r'postcondition', r'A_STORE_guard\.assertion', r'G_store_current_exception\.assertion'], timeout=300),
-            Unit('TaskSetBase::testAndResetException', 'cbmc', S, 'TSB_testAndResetException', expect=[r'postcondition', r'G_take_exception\.assertion'], timeout=300),
+    rp = dict(prog='replay/c05_replay.cpp', args=lambda ce, u: [], no_rlimit=True)
+    return [Unit('TaskSetBase::trySetCurrentException', 'cbmc', S, 'TSB_trySetCurrentException', replay=rp, expect=[r'postcondition', r'A_STORE_guard\.assertion', r'G_store_current_exception\.assertion'], timeout=300),
+            Unit('TaskSetBase::testAndResetException', 'cbmc', S, 'TSB_testAndResetException', replay=rp, expect=[r'postcondition', r'G_take_exception\.assertion'], timeout=300),
             Unit('packageTask (packaged body, throwing functor)', 'cbmc', S, 'PKG_body_exc', expect=[r'postcondition', r'G_counter_dec\.assertion'], timeout=300),
             Unit('packageTaskNoIncrement (packaged body, throwing functor)', 'cbmc', S, 'PKG_body_noinc_exc', expect=[r'postcondition', r'G_counter_dec\.assertion'], timeout=300),
             Unit('TaskSetBase::invokeInline (throwing generated functor)', 'cbmc', S, 'TSB_invokeInline_exc', expect=[r'postcondition'], timeout=300)]
